@@ -59,6 +59,8 @@ def nrt_part(ctx, c, n, own, other_note):
                 par = next((x[3] for x in o['events'] if x[0] == 'resume' and x[1] == e[1][0]), None)
                 if par is not None and Fraction(e[4]) != 0:
                     c.count('nrt:play %s<-%s at time>0' % (K.clock_name(e[3]), K.clock_name(par)))
+        if any(e[0] == 'send' for e in o['events']):
+            c.count('nrt:life of the session sending through address objects: %s' % p.get('addr', 'fresh'))
         nres = sum(1 for e in o['events'] if e[0] == 'resume')
         c.count('nrt:resumptions:%s' % ('0' if nres == 0 else '1-3' if nres <= 3 else '4-9' if nres <= 9 else '10+'))
         for e in o['events']:
